@@ -320,7 +320,7 @@ func ruleR19_3(c *Check) {
 		})
 		r.Check(okv, ah, "builder hashes the timestamp-less key", s, "keyHashes does not receive y.Hash(y.ParseKey(key))")
 	}
-	r.Exists(n == 1, ah, "key hash recorded", nil, "addHelper does not append to keyHashes")
+	r.Exists(n >= 1, ah, "key hash recorded", nil, "addHelper does not append to keyHashes")
 	// the filter is built from keyHashes
 	built := false
 	for _, f := range w.Fns {
@@ -515,7 +515,7 @@ func ruleR16_2(c *Check) {
 		id, ok := unparen(arg).(*ast.Ident)
 		r.Check(ok && offParam != nil && w.Use(id) == types.Object(offParam), ee, "record encrypted with the IV of its offset parameter", s, "generateIV argument is "+short(w, arg))
 	}
-	r.Exists(n == 1, ee, "encryption uses generateIV", nil, "encodeEntry no longer calls generateIV")
+	r.Exists(n >= 1, ee, "encryption uses generateIV", nil, "encodeEntry no longer calls generateIV")
 	// callers of encodeEntry
 	writeAt := w.Field("badger.logFile.writeAt")
 	vpOff := w.Field("badger.valuePointer.Offset")
